@@ -167,17 +167,22 @@ impl Stitch {
                 State::BeforeBand(band_id) => {
                     // Start reading this new index and skip forward until after last_apath
                     match Band::open(&self.archive, *band_id).await {
-                        Ok(band) => {
-                            let mut index_hunks = band.index().iter_available_hunks().await;
-                            if let Some(last) = &self.last_apath {
-                                index_hunks = index_hunks.advance_to_after(last)
+                        Ok(band) => match band.index().try_iter_available_hunks().await {
+                            Ok(mut index_hunks) => {
+                                if let Some(last) = &self.last_apath {
+                                    index_hunks = index_hunks.advance_to_after(last)
+                                }
+                                State::InBand {
+                                    band_id: *band_id,
+                                    index_hunks,
+                                    buffered_entries: Vec::new().into_iter().peekable(),
+                                }
                             }
-                            State::InBand {
-                                band_id: *band_id,
-                                index_hunks,
-                                buffered_entries: Vec::new().into_iter().peekable(),
+                            Err(err) => {
+                                self.monitor.error(err);
+                                State::AfterBand(*band_id)
                             }
-                        }
+                        },
                         Err(err) => {
                             self.monitor.error(err);
                             State::AfterBand(*band_id)
